@@ -1,7 +1,7 @@
 #!/bin/sh
-# usage: confirm_seed.sh Cxx mutN  -- confirm a sub-agent's seeded change in its scratch worktree:
-# tests pass with it, demo fails with it, demo passes without it.  Prints a one-line verdict.
-id=$1; mut=$2; wt=/tmp/wt/$id; d=/tmp/seeds/$id/$mut
+# usage: confirm_seed.sh Cxx mutN [worktree-root]  -- confirm a sub-agent's seeded change in its scratch
+# worktree: tests pass with it, demo fails with it, demo passes without it.  Prints a one-line verdict.
+id=$1; mut=$2; root=${3:-/tmp/wt3}; wt=$root/$id; d=/tmp/seeds/$id/$mut
 [ -d $wt ] || git -C /repo worktree add -q --detach $wt HEAD
 git -C $wt checkout -q -- . ; git -C $wt clean -fdq
 /venv/bin/python $d/demo.py $wt >/tmp/seeds/$id/$mut.clean.log 2>&1; rc_clean=$?
